@@ -15,6 +15,7 @@ import (
 	"fmt"
 	"math/rand/v2"
 	"net/netip"
+	"os"
 	"sort"
 	"strings"
 	"sync"
@@ -25,6 +26,7 @@ import (
 	"github.com/google/uuid"
 
 	"github.com/osrg/gobgp/v4/api"
+	"github.com/osrg/gobgp/v4/internal/pkg/table"
 	"github.com/osrg/gobgp/v4/internal/verif/vlib"
 	"github.com/osrg/gobgp/v4/pkg/apiutil"
 	"github.com/osrg/gobgp/v4/pkg/packet/bgp"
@@ -40,6 +42,7 @@ type c01Peer struct {
 	// the session (re-)established since the last comparison of this peer: a difference seen now
 	// may stem from the initial table transfer rather than from incremental updates
 	upSinceCompare bool
+	deleted        bool // removed with DeletePeer (may be added again later)
 	// what this speaker currently announces: prefix -> id -> true
 	ann map[string]map[uint32]bool
 }
@@ -56,6 +59,7 @@ type c01Hist struct {
 	// looped[target addr][prefix]: at some point of this history some source announced a version of
 	// prefix whose AS_PATH contains the target's AS (a version filtered towards that target)
 	looped map[string]map[string]bool
+	sig    func() uint64 // interleaving signature (order in which gobgp passed the yield points)
 	events map[string]int
 	flips  int
 
@@ -65,6 +69,8 @@ type c01Hist struct {
 	local map[string]simRoute // API-injected routes by prefix
 	noRS  bool                // generate no route-server clients (their routes live in a separate table)
 
+	peerChurn    bool // DeletePeer / AddPeer events
+	exportPolicy bool // c01ExportPolicy is installed
 	tolerateDown bool // C20: sessions may be refused because of concurrent administrative operations
 }
 
@@ -134,6 +140,18 @@ func c01GenPeers(r *rand.Rand) []simPeerSpec {
 }
 
 func (h *c01Hist) noteLoops(src *c01Peer, rs simRouteSpec) {
+	if h.exportPolicy {
+		for _, c := range rs.Comms {
+			if c == 65000<<16|1 { // rejected by the export policy: a version filtered towards every target
+				for _, t := range h.peers {
+					if h.looped[t.spec.Addr] == nil {
+						h.looped[t.spec.Addr] = map[string]bool{}
+					}
+					h.looped[t.spec.Addr][rs.Prefix] = true
+				}
+			}
+		}
+	}
 	path := append([]uint32{}, rs.ASPath...)
 	if src.spec.Kind == simEBGP || src.spec.Kind == simRSClient {
 		path = append(path, src.spec.AS)
@@ -243,7 +261,7 @@ func (h *c01Hist) step() {
 		h.logf("close %s", p.spec.Addr)
 	case k < 80: // re-establish a down peer
 		for _, p := range h.peers {
-			if !p.up {
+			if !p.up && !p.deleted {
 				if err := p.sp.bringUp(40); err != nil {
 					if h.tolerateDown {
 						// a management client may have disabled / shut down / deleted this neighbour
@@ -299,7 +317,30 @@ func (h *c01Hist) step() {
 		p.sp.setPaused(!was)
 		h.events["pause-toggle"]++
 		h.logf("pause %s -> %v", p.spec.Addr, !was)
-	case k < 98 && len(ups) > 1: // burst: several speakers write concurrently (same prefixes) while one target is not reading
+	case k < 97 && h.peerChurn && len(ups) > 2: // peer removal (its routes must vanish everywhere) ...
+		p := ups[r.IntN(len(ups))]
+		if h.n.s.DeletePeer(context.Background(), &api.DeletePeerRequest{Address: p.spec.Addr}) == nil {
+			p.up, p.deleted = false, true
+			p.ann = map[string]map[uint32]bool{}
+			if h.adjIn != nil {
+				delete(h.adjIn, p.spec.Addr)
+			}
+			p.sp.close()
+			h.events["delete-peer"]++
+			h.logf("delete-peer %s", p.spec.Addr)
+		}
+	case k < 98 && h.peerChurn: // ... and addition (initial table transfer to a new neighbour)
+		for _, p := range h.peers {
+			if p.deleted {
+				if h.n.s.AddPeer(context.Background(), &api.AddPeerRequest{Peer: p.spec.apiPeer()}) == nil {
+					p.deleted = false
+					h.events["add-peer"]++
+					h.logf("add-peer %s", p.spec.Addr)
+				}
+				break
+			}
+		}
+	case k < 99 && len(ups) > 1: // burst: several speakers write concurrently (same prefixes) while one target is not reading
 		h.burst(ups)
 	default:
 		time.Sleep(time.Second)
@@ -490,7 +531,14 @@ func (h *c01Hist) compare(tag string) bool {
 				for _, l := range d {
 					switch {
 					case strings.HasPrefix(l, "OVER"):
-						setClass("over-send-max:"+phase, 1)
+						// OVER <family>/<prefix>: ...
+						f := strings.Fields(l)[1]
+						pfx := strings.TrimSuffix(f[strings.Index(f, "/")+1:], ":")
+						if phase == "incremental" && h.looped[p.spec.Addr][pfx] {
+							setClass("over-send-max:incremental:after-filtered-version", 1)
+						} else {
+							setClass("over-send-max:"+phase, 1)
+						}
 					case strings.HasPrefix(l, "NOT-ELIGIBLE"):
 						k := strings.Fields(l)[3] // family/prefix#id
 						pfx := k[strings.Index(k, "/")+1 : strings.LastIndex(k, "#")]
@@ -552,7 +600,7 @@ func (h *c01Hist) compare(tag string) bool {
 		p.sp.nUpdates = 0
 		p.sp.mu.Unlock()
 		if nup > 0 {
-			h.rec.Nontrivial(fmt.Sprintf("%s|ap%d|%s", p.spec.Kind, p.spec.SendMax, h.shapeHash()))
+			h.rec.Nontrivial(fmt.Sprintf("%s|ap%d|%s|%x", p.spec.Kind, p.spec.SendMax, h.shapeHash(), h.sigv()))
 			h.rec.Count("comparisons_after_updates", 1)
 		}
 		if d := c01Diff(got, want); len(d) > 0 {
@@ -604,6 +652,37 @@ func (h *c01Hist) ribIDs(p *c01Peer) map[string]bool {
 	return out
 }
 
+func (h *c01Hist) sigv() uint64 {
+	if h.sig == nil {
+		return 0
+	}
+	return h.sig()
+}
+
+// c01ExportPolicy installs a global export policy: routes carrying community 65000:1 are
+// rejected, routes carrying 65000:2 get MED 77, everything else is accepted unchanged.
+func c01ExportPolicy(n *simNet) error {
+	bg := context.Background()
+	s := n.s
+	for _, ds := range []*api.DefinedSet{
+		{DefinedType: api.DefinedType_DEFINED_TYPE_COMMUNITY, Name: "c1", List: []string{"^65000:1$"}},
+		{DefinedType: api.DefinedType_DEFINED_TYPE_COMMUNITY, Name: "c2", List: []string{"^65000:2$"}},
+	} {
+		if err := s.AddDefinedSet(bg, &api.AddDefinedSetRequest{DefinedSet: ds}); err != nil {
+			return err
+		}
+	}
+	pol := &api.Policy{Name: "exp", Statements: []*api.Statement{
+		{Name: "exp-rej", Conditions: &api.Conditions{CommunitySet: &api.MatchSet{Name: "c1", Type: api.MatchSet_TYPE_ANY}}, Actions: &api.Actions{RouteAction: api.RouteAction_ROUTE_ACTION_REJECT}},
+		{Name: "exp-med", Conditions: &api.Conditions{CommunitySet: &api.MatchSet{Name: "c2", Type: api.MatchSet_TYPE_ANY}}, Actions: &api.Actions{RouteAction: api.RouteAction_ROUTE_ACTION_ACCEPT, Med: &api.MedAction{Type: api.MedAction_TYPE_REPLACE, Value: 77}}},
+	}}
+	if err := s.AddPolicy(bg, &api.AddPolicyRequest{Policy: pol}); err != nil {
+		return err
+	}
+	return s.AddPolicyAssignment(bg, &api.AddPolicyAssignmentRequest{Assignment: &api.PolicyAssignment{Name: table.GLOBAL_RIB_NAME, Direction: api.PolicyDirection_POLICY_DIRECTION_EXPORT,
+		Policies: []*api.Policy{{Name: "exp"}}, DefaultAction: api.RouteAction_ROUTE_ACTION_ACCEPT}})
+}
+
 func (h *c01Hist) shapeHash() string {
 	var ks []string
 	for k, v := range h.events {
@@ -639,6 +718,29 @@ func c01History(t *testing.T, rec *vlib.Rec, idx int) {
 		synctest.Wait()
 	}()
 	h := &c01Hist{t: t, rec: rec, idx: idx, r: r, n: n, apiUU: map[string][]byte{}, looped: map[string]map[string]bool{}, events: map[string]int{}}
+	feat := os.Getenv("VERIF_C01_FEATURES") // development aid: "" = all; otherwise letters c(hurn) y(ield) p(olicy)
+	on := func(c string) bool { return feat == "" || strings.Contains(feat, c) }
+	h.peerChurn = r.IntN(2) == 0 && on("c")
+	sig := func() uint64 { return 0 }
+	if r.IntN(2) == 0 && on("y") {
+		var yn func() int64
+		var un func()
+		sig, yn, un = simInstallYield(r.Uint64(), false)
+		defer func() {
+			rec.Count("yield_points_passed", int(yn()))
+			un()
+		}()
+		rec.Count("histories_with_yield_hook", 1)
+	}
+	h.sig = sig
+	if r.IntN(3) == 0 && on("p") {
+		if err := c01ExportPolicy(n); err != nil {
+			rec.Inconclusive("c01: export policy: " + err.Error())
+			return
+		}
+		h.exportPolicy = true
+		rec.Count("histories_with_export_policy", 1)
+	}
 	for _, ps := range c01GenPeers(r) {
 		sp, err := n.addPeer(ps)
 		if err != nil {
